@@ -55,6 +55,7 @@ type Tree struct {
 	leafSequence   uint32
 	branchSequence uint32
 	isReplaying    bool
+	replayValue    []byte // value of the leaf being replayed, when leaf values are stored
 	evictionDepth  int8
 }
 
@@ -404,6 +405,7 @@ func (tree *Tree) recursiveSet(node *Node, key []byte, value []byte) (
 			tree.mutateNode(node)
 			if tree.isReplaying {
 				node.hash = value
+				node.value = tree.replayValue
 			} else {
 				if wasDirty {
 					tree.workingBytes -= node.sizeBytes()
@@ -663,6 +665,7 @@ func (tree *Tree) NewLeafNode(key []byte, value []byte) *Node {
 
 	if tree.isReplaying {
 		node.hash = value
+		node.value = tree.replayValue
 	} else {
 		node.value = value
 		node._hash()
